@@ -189,8 +189,13 @@ func (s *schedRun) one(bno int, b SchedBehaviour) error {
 				s.mu.Unlock()
 			}
 		case "wlock":
-			// called from a stage goroutine of the write pipeline: there is one writer
-			s.sched.Yield("w", "wlock")
+			// called from a stage goroutine of the write pipeline (there is one writer) -- or, if a search
+			// ever asked for a write lock, from the searcher itself
+			if a := s.sched.Actor(); a != "" && a != "w" {
+				s.sched.Yield(a, "wlock")
+			} else {
+				s.sched.Yield("w", "wlock")
+			}
 		}
 	}
 	defer func() { cache.VerifYield = nil }()
@@ -219,24 +224,24 @@ func (s *schedRun) one(bno int, b SchedBehaviour) error {
 	if vecProp == nil {
 		return fmt.Errorf("configuration without a vector property")
 	}
-	// the first batch of the behaviour is generated up front: searches aim at one of its points,
-	// so that a reader that ought not to see the batch would notice it
-	var firstBatch *Batch
+	// the batches of the behaviour are generated up front: a search aims at a point of the batch that is
+	// written next, so that a reader that ought not to see that batch would notice it
+	var pending []Batch
 	for _, st := range b.Steps {
 		if st.Act == "WBegin" {
 			nb := r.GenBatch()
 			for tries := 0; tries < 20 && len(nb.Pts) == 0 && len(nb.IDs) == 0; tries++ {
 				nb = r.GenBatch()
 			}
-			firstBatch = &nb
-			break
+			pending = append(pending, nb)
 		}
 	}
+	begun := 0
 	startReader := func(a string) {
 		rr := NewRunner(r.Cfg, int64(bno*7+len(a))+r.R.Int63n(1000), nil, r.Dir)
 		vec, _ := rr.G.vec(vecProp.Dim, vecProp.Metric)
-		if firstBatch != nil && r.R.Intn(4) != 0 {
-			for _, pt := range firstBatch.Pts {
+		if len(pending) > 0 && r.R.Intn(4) != 0 {
+			for _, pt := range pending[min(begun, len(pending)-1)].Pts {
 				if v, ok := pt.Vals[vecProp.Name].([]float32); ok && len(v) == vecProp.Dim {
 					vec = v
 					break
@@ -311,7 +316,7 @@ func (s *schedRun) one(bno int, b SchedBehaviour) error {
 			s.mu.Lock()
 			s.opGate[a] = false
 			s.mu.Unlock()
-			for n := 0; n < 6 && started[a]; n++ {
+			for n := 0; n < 8 && started[a]; n++ {
 				w := s.where(a)
 				if w == "done" || w == "" {
 					break
@@ -322,16 +327,22 @@ func (s *schedRun) one(bno int, b SchedBehaviour) error {
 				}
 				s.advance(a)
 			}
-		case "WBegin":
-			var batch Batch
-			if firstBatch != nil {
-				batch, firstBatch = *firstBatch, nil
-			} else {
-				batch = r.GenBatch()
-				for tries := 0; tries < 20 && len(batch.Pts) == 0 && len(batch.IDs) == 0; tries++ {
-					batch = r.GenBatch()
+			// searches never wait for a writer: the search must be over now, whatever the writer holds
+			// (waiting for the manager's mutex does not count: another search that is creating the cache object
+			// holds it while it reads from storage, and may be parked there by this very schedule)
+			if started[a] {
+				if w := s.sched.Wait(a, s.timeout/3); w != "done" {
+					blocked := gate.BlockedOnLock(gate.Dump(), s.sched.GoIDs())[a]
+					if strings.Contains(blocked, "RWMutex") {
+						r.TW.Emit("Err", M{"what": "SearchBlocked", "err": errStr(fmt.Errorf("search %s waits on a lock while the writer is at %q: %s", a, s.where("w"), blocked)), "a": 0, "b": 0})
+					} else {
+						s.note("%s not done after REnd (%q)", a, w)
+					}
 				}
 			}
+		case "WBegin":
+			batch := pending[min(begun, len(pending)-1)]
+			begun++
 			if started["w"] && s.where("w") != "done" {
 				s.note("WBegin while the previous batch is still running (skipped)")
 				break
